@@ -24,7 +24,15 @@ from spydrnet.ir import (Netlist, Library, Definition, Port, Cable, Instance, In
 KINDS = ["N", "L", "D", "P", "C", "I", "Q", "W"]
 CLASS_OF = {"N": Netlist, "L": Library, "D": Definition, "P": Port, "C": Cable, "I": Instance,
             "Q": InnerPin, "W": Wire}
-KEYMAP = {"name": ".NAME", "eid": "EDIF.identifier", "ns": ".NS", "k": "k"}
+# kind detection uses the base classes (spydrnet.ir.X is a generated subclass of spydrnet.ir.x.X; an
+# object of the base class is still that kind of element - its class is reported under badClass)
+import spydrnet.ir.netlist, spydrnet.ir.library, spydrnet.ir.definition, spydrnet.ir.port  # noqa: E402,E401
+import spydrnet.ir.cable, spydrnet.ir.instance, spydrnet.ir.innerpin, spydrnet.ir.wire  # noqa: E402,E401
+BASE_OF = {"N": spydrnet.ir.netlist.Netlist, "L": spydrnet.ir.library.Library,
+           "D": spydrnet.ir.definition.Definition, "P": spydrnet.ir.port.Port,
+           "C": spydrnet.ir.cable.Cable, "I": spydrnet.ir.instance.Instance,
+           "Q": spydrnet.ir.innerpin.InnerPin, "W": spydrnet.ir.wire.Wire}
+KEYMAP = {"name": ".NAME", "eid": "EDIF.identifier", "ns": ".NS", "k": "k", "props": "props"}
 MODELLED_KEYS = set(KEYMAP.values())
 
 
@@ -34,7 +42,7 @@ class HarnessError(Exception):
 
 def kind_of(obj):
     for k in KINDS:
-        if isinstance(obj, CLASS_OF[k]):
+        if isinstance(obj, BASE_OF[k]):
             return k
     return None
 
@@ -91,10 +99,20 @@ def _data(e):
     rec = {"name": _val(d[".NAME"]) if ".NAME" in d else "",
            "eid": _val(d["EDIF.identifier"]) if "EDIF.identifier" in d else "",
            "ns": _val(d[".NS"]) if ".NS" in d else "",
-           "k": _val(d["k"]) if "k" in d else ""}
+           "k": _val(d["k"]) if "k" in d else "", "props": _props(d["props"]) if "props" in d else ""}
     if other:
         rec["other"] = json.dumps(other, sort_keys=True, default=repr)
     return rec
+
+
+def _props(v):
+    """the nested user value is a list holding one dict; its abstraction is the token inside"""
+    try:
+        if isinstance(v, list) and len(v) == 1 and set(v[0]) == {"identifier", "value"}:
+            return _val(v[0]["value"])
+    except Exception:
+        pass
+    return "<%r>" % (v,)
 
 
 def _attr(b, is_port):
@@ -155,12 +173,82 @@ def project(reg):
     dangling references become visible instead of being dropped.  Repeats until no new object
     turns up."""
     while True:
+        adopt(reg)
         before = {k: reg.count(k) for k in KINDS}
         st = _project_once(reg)
         if LOOKUP_VALUES:
             st["lookup"] = _lookup_table(reg)
         if all(reg.count(k) == before[k] for k in KINDS):
             return st
+
+
+def _each(reg, kind):
+    """iterate over the registry's elements of a kind, including ones adopted during the iteration"""
+    i = 0
+    objs = reg.objs[kind]
+    while i < len(objs):
+        yield objs[i]
+        i += 1
+
+
+def adopt(reg):
+    """adopt every object reachable from the registry's elements under fresh ids, in the canonical
+    walk order of the specification: netlists, libraries, definitions, ports, cables, instances
+    (container lists before reference sets), then pins and wires.  The order only matters for
+    strict conformance of creating calls (clone); the property predicates do not depend on ids."""
+    while True:
+        before = tuple(reg.count(k) for k in KINDS)
+        for n in _each(reg, "N"):
+            for x in n.libraries:
+                reg.id_of(x, "L")
+            reg.id_of(n.top_instance, "I")
+        for x in _each(reg, "L"):
+            reg.id_of(x.netlist, "N")
+            for d in x.definitions:
+                reg.id_of(d, "D")
+        for d in _each(reg, "D"):
+            reg.id_of(d.library, "L")
+        for d in _each(reg, "D"):
+            for p in d.ports:
+                reg.id_of(p, "P")
+        for d in _each(reg, "D"):
+            for c in d.cables:
+                reg.id_of(c, "C")
+        for d in _each(reg, "D"):
+            for i in d.children:
+                reg.id_of(i, "I")
+        for p in _each(reg, "P"):
+            reg.id_of(p.definition, "D")
+        for c in _each(reg, "C"):
+            reg.id_of(c.definition, "D")
+        for i in _each(reg, "I"):
+            reg.id_of(i.parent, "D")
+            reg.id_of(i.reference, "D")
+        for d in _each(reg, "D"):
+            for i in sorted(d.references, key=lambda o: reg.ids.get(id(o), ("", 1 << 30))[1]):
+                reg.id_of(i, "I")
+        if tuple(reg.count(k) for k in KINDS) != before:
+            continue
+        for p in _each(reg, "P"):
+            for q in p.pins:
+                reg.id_of(q, "Q")
+        for c in _each(reg, "C"):
+            for w in c.wires:
+                reg.id_of(w, "W")
+        for i in _each(reg, "I"):
+            for ip, op in i.pins.items():
+                reg.id_of(ip, "Q")
+                reg.id_of(op.wire, "W")
+        for q in _each(reg, "Q"):
+            reg.id_of(q.port, "P")
+            reg.id_of(q.wire, "W")
+        for w in _each(reg, "W"):
+            reg.id_of(w.cable, "C")
+            for p in w.pins:
+                if isinstance(p, BASE_OF["Q"]):
+                    reg.id_of(p, "Q")
+        if tuple(reg.count(k) for k in KINDS) == before:
+            return
 
 
 def _ids(reg, seq, kind):
@@ -219,6 +307,14 @@ def _project_once(reg):
     s["wireCable"] = [reg.id_of(w.cable, "C") for w in W]
     s["wirePins"] = [[_pinref(reg, p) for p in w.pins] for w in W]
     s["nsDefault"] = _val(sdn.namespace_manager.default)
+    bad = []
+    for k, cname in (("N", "Netlist"), ("L", "Library"), ("D", "Definition"), ("P", "Port"), ("C", "Cable"),
+                     ("I", "Instance"), ("Q", "InnerPin"), ("W", "Wire")):
+        pub = getattr(sdn, cname)
+        for n, o in enumerate(reg.objs[k], 1):
+            if not isinstance(o, pub):
+                bad.append([k, n])
+    s["badClass"] = bad
     return s
 
 
@@ -339,7 +435,7 @@ def _do(reg, c):
     if op in ("set_item", "del_item", "pop_item", "set_name", "del_name", "set_name_none"):
         e = reg.get(c["kind"], c["x"])
         if op == "set_item":
-            e[KEYMAP[c["key"]]] = c["val"]
+            e[KEYMAP[c["key"]]] = [{"identifier": "p", "value": c["val"]}] if c["key"] == "props" else c["val"]
         elif op == "del_item":
             del e[KEYMAP[c["key"]]]
         elif op == "pop_item":
@@ -355,6 +451,9 @@ def _do(reg, c):
         e = reg.get(c["kind"], c["x"])
         setattr(e, {"scalar": "is_scalar", "lower": "lower_index", "downto": "is_downto",
                     "dir": "direction"}[c["key"]], c["val"])
+        return []
+    if op == "mutate_props":
+        reg.get(c["kind"], c["x"])["props"][0]["value"] = c["val"]
         return []
     if op == "set_lower":
         reg.get(c["kind"], c["x"]).lower_index = c["ival"]
@@ -472,23 +571,52 @@ def _x_flatten(reg, c):
     return []
 
 
-QUERY_OPS = {"hq": _q_hq, "hcheck": _q_hcheck, "uniquify": _x_uniquify, "flatten": _x_flatten}
+def _x_clone(reg, c):
+    obj = reg.get(c["kind"], c["x"])
+    new = obj.clone()
+    reg.pending_ret = (c["kind"], new)
+    return [(c["kind"], new)]
+
+
+QUERY_OPS = {"clone": _x_clone, "hq": _q_hq, "hcheck": _q_hcheck, "uniquify": _x_uniquify, "flatten": _x_flatten}
+
+
+class CallTimeout(Exception):
+    pass
+
+
+def _alarm(signum, frame):
+    raise CallTimeout()
+
+
+CALL_TIMEOUT_S = int(os.environ.get("VERIF_CALL_TIMEOUT", "20"))
 
 
 def execute(reg, c):
     """run one call on the implementation.  Returns (outcome, exception class name or '').
     Objects returned by creating calls are bound to the next ids of their kind (the
     specification allocates ids in the same order)."""
+    import signal
     reg.last_ret = reg.last_info = None
+    old = signal.signal(signal.SIGALRM, _alarm)
+    signal.alarm(CALL_TIMEOUT_S)
     try:
         created = _do(reg, c)
     except HarnessError:
         raise
+    except CallTimeout:
+        return "timeout", "CallTimeout"
     except Exception as e:  # the call was refused by spydrnet
         return "refused", type(e).__name__
+    finally:
+        signal.alarm(0)
+        signal.signal(signal.SIGALRM, old)
     for kind, obj in created:
         if obj is not None:
             reg.bind(kind, obj)
+    if c["op"] == "clone":
+        reg.last_ret = [reg.id_of(created[0][1], created[0][0])]
+        reg.last_info = []
     return "ok", ""
 
 
@@ -552,7 +680,8 @@ def project_mirror(reg):
         other = {k: d[k] for k in d if k not in MODELLED_KEYS}
         rec = {"name": _val(d[".NAME"]) if ".NAME" in d else "",
                "eid": _val(d["EDIF.identifier"]) if "EDIF.identifier" in d else "",
-               "ns": _val(d[".NS"]) if ".NS" in d else "", "k": _val(d["k"]) if "k" in d else ""}
+               "ns": _val(d[".NS"]) if ".NS" in d else "", "k": _val(d["k"]) if "k" in d else "",
+               "props": _props(d["props"]) if "props" in d else ""}
         if other:
             rec["other"] = json.dumps(other, sort_keys=True, default=repr)
         return rec
@@ -565,8 +694,8 @@ def build(calls, listeners=""):
     reg = fresh(listeners)
     for c in calls:
         execute(reg, c)
-        # creating calls may create more than they return (pins of a new port, ...): adopt them
-        # in the canonical walk order right away so ids follow creation order
-        if c["op"] in ("create", "create_n", "create_child", "set_top_def", "new"):
-            project(reg)
+        # creating calls may create more than they return (pins of a new port, a whole clone ...):
+        # adopt them in the canonical walk order right away so ids follow creation order
+        if c["op"] in ("create", "create_n", "create_child", "set_top_def", "new", "clone", "uniquify", "seq"):
+            adopt(reg)
     return reg
